@@ -13,7 +13,8 @@ CLAIM = dict(
               "(broadcast_shapes, broadcast_to, broadcast_arrays on uniquely labelled arrays) plus metamorphic law checks on the recorded results",
     text="Executes broadcast_shape for every pair of shapes of dim 0..3 / extents 1..3 (thorough: dim 0..4 / extents 1..4 = 341^2 pairs), every triple "
          "over dim 0..2 (thorough: +200k sampled triples, dims up to 8 sampled), 4-operand calls, with run-time shape containers of kind list / "
-         "array<N> / static_vector / list<int> / None in mixed combinations (g++ STL, g++ no-STL, clang builds); records has_value + result and decides "
+         "array<N> / static_vector / list<int> / None in mixed combinations (g++ STL, g++ no-STL, clang builds), plus constant / clipped-tuple / "
+         "clipped-array shapes against every run-time kind; records has_value + result and decides "
          "success/failure and the result against numpy.broadcast_shapes; commutativity, associativity (both groupings == variadic), idempotence, "
          "absorption and scalar neutrality are checked on the recorded results themselves (table look-ups closed over the exhaustive scope and "
          "in-library nested calls on the maybe-valued results). shape_broadcast_to/origin_axes/index::broadcast_to and the views broadcast_to / "
@@ -21,7 +22,9 @@ CLAIM = dict(
          "lazy view and of all evaluation routes are compared with NumPy on label arrays; failure must be reported (Nothing) exactly when NumPy raises; "
          "crashes and bounds-hook events are violations. Held-on-observed, not a proof.",
     note="Trusted: NumPy as the model, the harness odometer, ASan+UBSan+_GLIBCXX_ASSERTIONS builds. Extents are >= 1 (the property statement's "
-         "'per-axis maximum' rule; zero extents are outside it). Compile-time-constant / clipped shape containers are covered by C09, not here. "
+         "'per-axis maximum' rule; zero extents are outside it). Constant / clipped shapes are exercised at the index level against every run-time kind "
+         "(finding c06_clipped_operand_clamps_result lives there); constant/clipped-shape ndarrays at the view level are C09's subject. "
+         "Clipped-integer clamp events are counted, not alarmed on (they also occur on discarded results of failing broadcasts). "
          "The no-STL build runs with leak detection off (utl::maybe<utl::vector> leaks are C19's subject).",
     ref="DESIGN.md 4/C06")
 
@@ -437,6 +440,7 @@ class Checker:
         self.elements = 0
         self.oracle_disagree = 0
         self.crashes = 0
+        self.clamps = 0
         self.flavor_runs = {}
 
     def law(self, name, n=1):
@@ -555,8 +559,10 @@ class Checker:
         p = parse_Y(t)
         t.expect("Q")
         q = parse_Y(t)
-        self.check_bs_result("bsm:%s,%s:%s" % (ak, bk, cls), "broadcast_shape", p, (a, b), exp, det)
-        self.check_bs_result("bsm:%s,%s:%s" % (bk, ak, cls), "broadcast_shape", q, (b, a), exp, det)
+        # one key per (unordered kind pair, compatible?) : both operand orders take the same type-level path
+        cls = cls.split("-")[0]
+        self.check_bs_result("bsm:%s+%s:%s" % (ak, bk, cls), "broadcast_shape", p, (a, b), exp, det)
+        self.check_bs_result("bsm:%s+%s:%s" % (ak, bk, cls), "broadcast_shape", q, (b, a), exp, det)
         if (p[1], p[2]) != (q[1], q[2]):
             ctx.violation("law:commutative:bsm:%s" % ",".join(sorted((ak, bk))), "bs(%s,%s)=%s but bs(%s,%s)=%s" % (list(a), list(b), p[2], list(b), list(a), q[2]), det)
         self.law("commutative(in-record)")
@@ -841,6 +847,11 @@ class Checker:
             ctx.ev()
             self.counts[m["op"]] = self.counts.get(m["op"], 0) + 1
             for (s, v, f0, f1) in self.hacc.add(hooks):
+                if s == 6:
+                    # clipped-integer clamping is not a bounds event: it also happens on values that are discarded
+                    # (failing broadcasts); its consequences are decided by the value oracle
+                    self.clamps += v
+                    continue
                 ctx.violation("%s:hook:%s" % (m["op"], SITE_NAMES.get(s, s)), "hook %s reported index %d outside bound %d in %s" % (SITE_NAMES.get(s, s), f0, f1, short(m)), dict(case=short(m), line=line))
             try:
                 if "EXC" in toks:
@@ -946,6 +957,7 @@ def run(ctx):
     ctx.exhaustive = False
     ctx.set("hook_events", ck.hacc.summary())
     ctx.set("crashes_contained", ck.crashes)
+    ctx.set("clipped_integer_clamp_events", ck.clamps)
     ctx.set("records_per_op", ck.counts)
     ctx.set("records_per_build", ck.flavor_runs)
     ctx.set("law_instances_checked", ck.laws)
